@@ -172,16 +172,27 @@ def _required_cfi_directives(
     results: List[_auxdata.CFIDirectiveType] = []
     procedure_directives: List[_auxdata.CFIDirectiveType] = []
     for _, directives in sorted(displacement_map.items()):
+        # The directives at the location of the .cfi_startproc set up the
+        # procedure's initial state (they play the role of the CIE's initial
+        # instructions, see the CFI evaluator) rather than describing an
+        # instruction, so they need to stay with the .cfi_startproc.
+        is_initial_state = False
         for directive in directives:
             append_to = procedure_directives or results
             if directive[0] == ".cfi_startproc":
                 procedure_directives.append(directive)
+                is_initial_state = True
             elif directive[0] == ".cfi_endproc":
                 append_to.append(directive)
                 procedure_directives.clear()
-            elif directive[0] in (
-                ".cfi_remember_state",
-                ".cfi_restore_state",
+                is_initial_state = False
+            elif (
+                directive[0]
+                in (
+                    ".cfi_remember_state",
+                    ".cfi_restore_state",
+                )
+                or is_initial_state
             ):
                 append_to.append(directive)
 
